@@ -30,6 +30,12 @@ LTNext ==
            ELSE IF Ev.missing > 0 THEN PrintT(<<"MISMATCH", l, "linget", {"getMissedInstalledEntry"}>>)
            ELSE IF Ev.dup > 0 THEN PrintT(<<"MISMATCH", l, "linget", {"getDuplicateDuringReplace"}>>)
            ELSE TRUE)
+     ELSE IF Ev.ev = "linsnap"
+     \* Get is a snapshot (C07, C11): with W1 acknowledged before W2 was issued, a Get in progress returns the contents of one moment
+     THEN (IF Ev.failed # "" THEN PrintT(<<"MISMATCH", l, "linsnap", {"linsnapFailed"}>>)
+           ELSE IF ToSetOf(Ev.got) \notin {ToSetOf(Ev.base), ToSetOf(Ev.base) \cup {Ev.w1}, ToSetOf(Ev.base) \cup {Ev.w1, Ev.w2}} \/ Len(Ev.got) # Cardinality(ToSetOf(Ev.got))
+                THEN PrintT(<<"MISMATCH", l, "linsnap", {"getNotSnapshot"}>>)
+           ELSE TRUE)
      ELSE IF Ev.ev = "linhook"
      \* Open finding (C16): the ADD notification of an install is delivered after the instance lock is released and can be
      \* overtaken by the DELETE notification of a Flush; the consumer then holds an entry the RIB does not
